@@ -4,8 +4,8 @@
 
     C01_C02_powell_positions         every position a call evaluates is a feasible position of the space
     C19_powell_outer_grounded        the OUTER object's tracked pairs and valid lists are really evaluated pairs
-    C15_powell_new_dim_raises        the KNOWN FINDING (C15) as a theorem: with no valid score `new_dim` raises IndexError
-    C15_powell_known_finding_witness … and a run through the whole driver that ends in IndexError, evaluated by the kernel
+    C15_powell_new_dim_uses_current  (after fix) with no valid score `new_dim` takes the current position
+    C15_powell_former_finding_fixed  … and the run through the whole driver that used to end in IndexError goes on (kernel-evaluated)
     C19_powell_inner_finding_witness the KNOWN FINDING (C19) as a theorem: a run, evaluated by the kernel, after which the
                                      inner climber's tracked best pair is (its own proposal, the score of the repaired
                                      position) - a pair that was never evaluated
@@ -76,49 +76,68 @@ theorem powNewDim_spec {cfg : PowCfg} {sp : Space} {s s' : PowSt} {log : Log} (g
       simp only at h
       split at h
       · simp at h
-      · cases hh : perm.head? with
-        | none => rw [hh] at h; simp at h
-        | some i0 =>
-          rw [hh] at h
+      · cases hb : powBest s perm with
+        | error e => rw [hb] at h; simp at h
+        | ok pp =>
+          rw [hb] at h
           simp only at h
-          cases hp : s.tr.positionsValid[i0]? with
-          | none => rw [hp] at h; simp at h
-          | some o =>
-            rw [hp] at h
-            cases o with
-            | none => simp at h
-            | some pp =>
-              simp only at h
-              cases hr : rest0 with
-              | nil => rw [hr] at h; simp at h
-              | cons d1 rest =>
-                rw [hr] at h
-                cases d1 with
-                | inits l =>
-                  simp only [Except.ok.injEq] at h
-                  subst h
-                  refine ⟨(List.suffix_cons _ _).trans (List.suffix_cons _ _), rfl, rfl, rfl, ?_⟩
-                  -- `pp` is a valid-list entry, hence an evaluated position
+          have hpp : InSpace sp pp := by
+            unfold powBest at hb
+            cases hh : perm.head? with
+            | none =>
+              rw [hh] at hb
+              simp only at hb
+              cases hc : s.tr.posCurrent with
+              | none => rw [hc] at hb; simp at hb
+              | some q =>
+                rw [hc] at hb
+                simp only [Except.ok.injEq] at hb
+                subst hb
+                rcases g.current with hcur | hcur
+                · rw [hc] at hcur; simp at hcur
+                · rw [hc] at hcur; exact hlog q _ hcur
+            | some i0 =>
+              rw [hh] at hb
+              simp only at hb
+              cases hp : s.tr.positionsValid[i0]? with
+              | none => rw [hp] at hb; simp at hb
+              | some o =>
+                rw [hp] at hb
+                cases o with
+                | none => simp at hb
+                | some q =>
+                  simp only [Except.ok.injEq] at hb
+                  subst hb
+                  -- `q` is a valid-list entry, hence an evaluated position
                   have hlt : i0 < s.tr.positionsValid.length := getElemOpt_lt hp
                   have hlt2 : i0 < s.tr.scoresValid.length := by rw [← g.validLen]; exact hlt
-                  have hz : (some pp, s.tr.scoresValid[i0]) ∈ s.tr.positionsValid.zip s.tr.scoresValid := by
+                  have hz : (some q, s.tr.scoresValid[i0]) ∈ s.tr.positionsValid.zip s.tr.scoresValid := by
                     apply zip_getElem_mem _ _ i0 _ _ hp (List.getElem?_eq_getElem hlt2)
-                  exact hlog pp _ (g.valid _ hz)
-                | unif _ => simp at h
-                | climb _ _ => simp at h
-                | dist _ _ => simp at h
-                | rnd _ => simp at h
-                | feas _ _ => simp at h
-                | accept _ _ => simp at h
-                | part _ _ => simp at h
-                | spiral _ => simp at h
-                | sorted _ => simp at h
-                | int _ => simp at h
-                | npunif _ => simp at h
-                | choice _ => simp at h
-                | mutant _ => simp at h
-                | parents _ => simp at h
-                | vec _ => simp at h
+                  exact hlog q _ (g.valid _ hz)
+          cases hr : rest0 with
+          | nil => rw [hr] at h; simp at h
+          | cons d1 rest =>
+            rw [hr] at h
+            cases d1 with
+            | inits l =>
+              simp only [Except.ok.injEq] at h
+              subst h
+              exact ⟨(List.suffix_cons _ _).trans (List.suffix_cons _ _), rfl, rfl, rfl, hpp⟩
+            | unif _ => simp at h
+            | climb _ _ => simp at h
+            | dist _ _ => simp at h
+            | rnd _ => simp at h
+            | feas _ _ => simp at h
+            | accept _ _ => simp at h
+            | part _ _ => simp at h
+            | spiral _ => simp at h
+            | sorted _ => simp at h
+            | int _ => simp at h
+            | npunif _ => simp at h
+            | choice _ => simp at h
+            | mutant _ => simp at h
+            | parents _ => simp at h
+            | vec _ => simp at h
     | unif _ => simp at h
     | climb _ _ => simp at h
     | dist _ _ => simp at h
@@ -384,28 +403,23 @@ theorem inv_fresh (sp : Space) (nInits : Nat) (initL : List Pos) (tape : Tape) :
 
 /-! ### the two known findings, as theorems about the model -/
 
-/-- C15: with no valid score so far, the first iteration of a dimension (no random restart) raises IndexError in `new_dim` -/
-theorem C15_powell_new_dim_raises (cfg : PowCfg) (s : PowSt) (x : Rat) (rest : Tape)
-    (hv : s.tr.scoresValid = []) (ht : s.tape = Draw.unif x :: Draw.sorted [] :: rest) (hr : ¬ cfg.randRestP > x)
-    (hi : cfg.itersPDim ≠ 0) (hm : (s.nthIter + 1) % (cfg.itersPDim : Int) = 0) :
-    powIterate cfg s = .error .indexError := by
-  unfold powIterate
-  simp only [ht, hr, if_false]
-  unfold powPropose
-  simp only [hi, if_false, hm, if_true]
-  unfold powNewDim
-  simp [hv, sortedDesc, adjacentDesc]
+/-- C15 (after fix): with no valid score so far `new_dim` searches along the line through the CURRENT position instead of raising -/
+theorem C15_powell_new_dim_uses_current (s : PowSt) (pp : Pos) (hc : s.tr.posCurrent = some pp) : powBest s [] = .ok pp := by
+  unfold powBest
+  simp [hc]
 
 def exSpace : Space := { names := ["x"], dims := [[0, 1, 2, 3, 4]] }
 def exCfg : PowCfg := { itersPDim := 10, nNeighbours := 3, randRestP := 0, sizes := [5], geo := exSpace.geo }
 
-/-- C15 witness through the whole driver: one start-up position scored nan, then the first iteration raises -/
+/-- the former C15 finding through the whole driver: one start-up position scored nan, then the first iteration - which used to raise
+    IndexError in `new_dim` - builds the inner climber along the line through the current position [2] and evaluates its first point -/
 def nanObj : Obj := fun _ _ _ => ({ score := .nan, metrics := [] }, 0)
-def exD15 : DState PowSt := { nInits := 1, bst := { initL := [[2]], tape := [.unif (1/2), .sorted []] } }
+def exD15 : DState PowSt :=
+  { nInits := 1, bst := { initL := [[2]], tape := [.unif (1/2), .sorted [], .inits [[4], [0], [1], [2], [3]], .feas [4] true] } }
 
-theorem C15_powell_known_finding_witness :
-    PatternRuns.isIndexError (searchCall (powBackend exCfg) exSpace nanObj { nIter := 2, memory := .off } exD15) = true ∧
-    (searchCall (powBackend exCfg) exSpace nanObj { nIter := 1, memory := .off } exD15).toOption.isSome = true := by
+theorem C15_powell_former_finding_fixed :
+    (searchCall (powBackend exCfg) exSpace nanObj { nIter := 2, memory := .off } exD15).map (fun x => (x.1.posL, x.1.bst.tape.length))
+      = .ok ([[2], [4]], 0) := by
   decide +kernel
 
 /-- C19 witness: constraint `x ≠ 4`. Start-up [2] (score 2). First iteration: `new_dim` builds the inner climber with
